@@ -152,7 +152,7 @@ class SupSelChoiceOptionMapping(SupChoiceMapping):
     """
 
     def __init__(self, src_choice_node: SelectionChoiceNode, mapping: Dict[Optional[DSGNode], DSGNode]):
-        self._src_choice_originating_node = None
+        self._src_choice_originating_nodes = None
         self._src_choice_node = src_choice_node
         self._mapping = mapping
 
@@ -184,19 +184,21 @@ class SupSelChoiceOptionMapping(SupChoiceMapping):
             raise SupInitializationError(
                 self, sup_dsg, src_dsg, f'Not all target nodes are choice option nodes: {unknown_sup_opt_nodes!r}')
 
-        # Get originating node in source DSG
-        originating_nodes = [edge[0] for edge in iter_in_edges(src_dsg.graph, src_choice_node)]
-        self._src_choice_originating_node = originating_nodes[0]
+        # Get originating nodes in source DSG (a choice can be derived by several nodes)
+        self._src_choice_originating_nodes = [edge[0] for edge in iter_in_edges(src_dsg.graph, src_choice_node)]
 
     def resolve(self, sup_dsg: SupDSG, sup_choice_node: ChoiceNode, src_dsg: DSG) -> SupDSG:
         assert isinstance(sup_choice_node, SelectionChoiceNode)
-        src_originating_node = self._src_choice_originating_node
-        assert src_originating_node is not None
+        assert self._src_choice_originating_nodes is not None
+
+        # The choice was active if any of its originating nodes exists: the selected option is wired to all of them
+        src_nodes = {node.str_context() for node in src_dsg.graph.nodes if isinstance(node, DSGNode)}
+        src_originating_node = next(
+            (node for node in self._src_choice_originating_nodes if node.str_context() in src_nodes), None)
 
         # Determine which option has been selected
-        src_nodes = {node.str_context() for node in src_dsg.graph.nodes if isinstance(node, DSGNode)}
         mapping = self._mapping
-        if src_originating_node.str_context() not in src_nodes:
+        if src_originating_node is None:
             if None not in mapping:
                 raise SupResolveError(
                     self, sup_dsg, src_dsg, f'Could not resolve {mapping!r}: {self._src_choice_node!r} is inactive, '
